@@ -1,5 +1,16 @@
+#![allow(dead_code)]
 //! zv — one sub-command per property. `zv <ID> [--tier quick|thorough] [--replay FILE]`
+mod alloc;
+mod c01;
+mod c02;
+mod c03;
 mod c19;
+mod e1;
+mod e3;
+mod replay;
+
+#[global_allocator]
+static GLOBAL: alloc::Counting = alloc::Counting;
 
 use zvcore::evidence::parse_tier;
 
@@ -14,6 +25,12 @@ fn main() {
     let tier = parse_tier(rest);
     let replay = zvcore::evidence::arg_value(rest, "--replay");
     let code = match id.as_str() {
+        "C01" => c01::run(tier, replay),
+        "C02" => c02::run(tier, replay),
+        "C03" => c03::run(tier, replay),
+        "c03-one" => c03::child_one(&args[2], true),
+        "c03-sweep" => c03::child_sweep(&args[2], args[3].parse().unwrap(), &args[4]),
+        "c03-e3" => c03::child_e3(&args[2], &args[3]),
         "C19" => c19::run(tier, replay),
         other => {
             eprintln!("unknown property id {}", other);
